@@ -412,6 +412,10 @@ func c17scenarios() []*schedx.Scenario {
 		add("2r-cancel-one-w", []c17op{R("R1", c17K1), R("R2", c17K1), C("C1", "R1"), W("W1", c17K1, 1)}, nil, nil)
 		add("r-w-expiry", []c17op{R("R1", c17K1), W("W1", c17K1, 1), R("R2", c17K1)}, []time.Duration{11 * time.Second},
 			map[core.Duty]time.Duration{c17D1: 10 * time.Second})
+		// a pending read of a duty that another validator's store registered with the deadliner survives the expiry and
+		// is served by a late store (which both implementations accept)
+		add("w-otherkey-r-expiry-latew", []c17op{W("W0", c17K3, 7), R("R1", c17K1), W("W1", c17K1, 1)}, []time.Duration{11 * time.Second},
+			map[core.Duty]time.Duration{c17D1: 10 * time.Second})
 		add("w-expiry-w2-r", []c17op{W("W1", c17K1, 1), W("W2", c17K1, 2), R("R1", c17K1)}, []time.Duration{11 * time.Second},
 			map[core.Duty]time.Duration{c17D1: 10 * time.Second})
 		W2 := func(n string, k c17key, v byte, k2 c17key, v2 byte) c17op {
